@@ -350,6 +350,20 @@ class PSub(PBase):
     extra: int = 0
 
 
+@dataclass(eq=False)
+class PSubSub(PSub):
+    """undecorated grandchild: inherits the registering constructor through the MRO"""
+    deep: int = 0
+
+
+class PHand(PSubSub):
+    """undecorated great-grandchild with a hand-written __init__"""
+
+    def __init__(self, name, size=1):
+        super().__init__(name, size)
+        self.hand = True
+
+
 @symbol
 @dataclass(eq=False)
 class POther:
